@@ -533,6 +533,55 @@ SEEDS = {
         detected_by={"C30": "lanczos_annihilated_vector_n1 (added): Lanczos on an annihilated vector stops (it does not raise) / never divides by zero"},
         strengthened="MISSED at first: double_krylov was only ever a stub. Added a case that runs its real Lanczos loop on a vector the operator annihilates (no LAPACK kernel is reached on that input), with the divisor log",
     ),
+    "C03d": dict(
+        property="C03",
+        change="check_permutable_observables whitelists 'fidelity': the reordering stays on although the Fidelity target state is given in register order and is never permuted",
+        needs="a Fidelity observable, reordering on with an ordering that moves atoms, a target state not invariant under it",
+        detected_by={"C03": "reordering_only_with_order_independent_observables (added): reordering stays on although an observable that cannot be un-permuted was requested", "C33": "reordering_vs_observables_upto2"},
+        strengthened="C03 MISSED it at first (C33 caught it): the gate that keeps reordering off for order-dependent observables was only decided under C33; that case is now part of C03",
+    ),
+    "C10d": dict(
+        property="C10",
+        change="split_matrix caps the rank with min(m.shape) - max_rank instead of len(d) - max_rank: when the Gram matrix is the larger one, more than max_rank directions are kept",
+        needs="a binding max_bond_dim and a wide reshaped factor (max_bond_dim < chi_l < dim*chi_r)",
+        detected_by={"C10": "split: split(2x3): 1 <= kept <= min(k, max_rank)"},
+    ),
+    "C12d": dict(
+        property="C12",
+        change="DenseOperator.expect computed as apply_to(state).inner(state) = <A psi|psi>: the complex conjugate of <psi|A|psi>",
+        needs="an expectation value with a non-zero imaginary part (non-Hermitian operator or complex coefficients)",
+        detected_by={"C12": "oprepr_keys_n1_k2: DenseOperator.expect = <v|A|v>"},
+    ),
+    "C14d": dict(
+        property="C14",
+        change="emu-mps fill_results computes the fractional time from target_time instead of current_time: the t=0 call from init() is filed under the first target time",
+        needs="an observable requesting time 0 and/or the first target time after 0, on emu-mps",
+        detected_by={"C14": "mps_steps1_D20: emu-mps: A(own times) stored exactly once per requested time and at no other time"},
+    ),
+    "C15d": dict(
+        property="C15",
+        change="readout_with_error rewritten with reassignment of c and the 1->0 branch first: a '1' flipped to '0' falls into the 0->1 branch with the same random number and can flip back",
+        needs="both p_false_pos and p_false_neg non-zero and a '1' bit",
+        detected_by={"C15": "readout_unit: 0->1 iff r < p_false_pos, 1->0 iff r < p_false_neg, unchanged otherwise"},
+    ),
+    "C18d": dict(
+        property="C18",
+        change="after a jump whose time lies in the last ns of the step, sweep_complete calls timestep_complete at once: the step completes at an off-grid time",
+        needs="a jump located less than 1 ns before a step end",
+        detected_by={"C18": "step_search_inner: at most one event (step completion or jump) per sweep; a step completes only when no jump search is active"},
+    ),
+    "C22d": dict(
+        property="C22",
+        change="the 3x magnitude cap of _limit_endpoint compares the end slope with the INNER secant instead of the end-interval secant",
+        needs="end secants of opposite sign with a magnitude ratio outside [1/3, 5/3] and a step midpoint in an end interval",
+        detected_by={"C22": "extract_T3_K2_atoms1: delta[k,0] = PCHIP(det samples)(midpoint)", "C20": "shape_n3_uniform: slopes of interval 0 lie in the monotonicity region"},
+    ),
+    "C24d": dict(
+        property="C24",
+        change="the relaxation jump operator is written at [0, dim-1]: with the leakage level present it becomes |g><x| instead of |g><r|",
+        needs="relaxation together with the leakage level (dim 3)",
+        detected_by={"C24": "rate_channels_ising_d3: dissipator of the emulator's jump operators = Pulser's (relaxation, ising, d=3)"},
+    ),
     "C19c": dict(
         property="C19",
         change="get_next_abscissa drops the `|dx| >= 3/4 |a-b|` half of the bisection fallback: an interpolated step is no longer bounded by the current bracket",
